@@ -261,6 +261,11 @@ func observe(c *Case, img v1.Image) (views []ViewObs, loadErr string) {
 				return nil
 			}
 			v.Walk = append(v.Walk, WalkEnt{P: p, Dir: d.IsDir(), Err: err != nil})
+			if len(v.Walk) > 4000 { // a walk that does not end (a listing that leads back to itself)
+				v.WalkOK = false
+				v.Walk = v.Walk[:50]
+				return fs.SkipAll
+			}
 			return nil
 		})
 		views = append(views, v)
@@ -945,7 +950,8 @@ func pinnedCases() []*Case {
 				f(".hidden", 0o644, "h"), f(".whatever", 0o644, "w"), d("etc", 0o755), d("etc/..d", 0o755), f("etc/..d/x", 0o644, "x")},
 			{d("..data", 0o755), f("..data/config", 0o644, "cfg2"), d("etc", 0o755), f("etc/.wh...x", 0, "")}},
 			Hist: []bool{false, false}, Cfg: def, Unpack: true,
-			Probes: []string{".", "..data", "..data/config", "..version", "...", ".hidden", ".whatever", "etc", "etc/..d", "etc/..d/x", "etc/..x", "zz/none"}},
+			Probes: []string{".", "/", "..data", "/..data", "./..data", "..data/config", "/..data/config", "..version", "/..version", "...", "/...",
+				".hidden", "/.hidden", "./.hidden", ".whatever", "/.whatever", "etc", "etc/..d", "/etc/..d", "etc/..d/x", "etc/..x", "zz/none"}},
 		// setuid / setgid / sticky on files and explicit directories, in every view
 		{Stream: "pinned", Layers: [][]Entry{
 			{d("tmp", 0o1777), d("bin", 0o755), f("bin/su", 0o4755, "su"), d("srv", 0o2750), f("srv/g", 0o2644, "g"), f("all", 0o7777, "all")},
